@@ -176,7 +176,7 @@ func (e *Exec) pickNext(g *G) *G {
 		return nil
 	}
 	k := 0
-	if len(cands) > 1 {
+	if len(cands) > 1 && !e.cfg.Canonical {
 		k = e.chooseN(len(cands), nil)
 	}
 	c := cands[k]
@@ -528,7 +528,7 @@ func (e *Exec) selectOp(cases []*selCase, blocking bool) (int, Value, bool) {
 		return -1, nil, false
 	}
 	k := 0
-	if len(rs) > 1 {
+	if len(rs) > 1 && !e.cfg.Canonical {
 		k = e.chooseN(len(rs), nil)
 	}
 	sc := cases[rs[k]]
